@@ -199,7 +199,7 @@ def setIterableValue (s : Scalars) (name : String) (f : FoldState) : ER Scalars 
 def removeIterableValue (s : Scalars) (name : String) : Scalars :=
   { s with iterable := s.iterable.filter (fun (k, _) => k != name) }
 
-/-- `get_value` (the `(Ok(_), Some(_))` arm is `unreachable!` in Rust) -/
+/-- `get_value` (the `(Ok(_), Some(_))` arm — a fold iterator named like a visible scalar — is `IterableShadowing` since /repo 66d8bd2) -/
 def getValue (s : Scalars) (name : String) : ER ScalarRef :=
   let v := s.nonIterable.getValue name
   let it := s.iterable.find? (fun (k, _) => k == name)
@@ -209,7 +209,7 @@ def getValue (s : Scalars) (name : String) : ER ScalarRef :=
   | .ok none, _ => catchable (.variableWasNotInitializedAfterNew name)
   | .ok (some x), none => .ok (.value x)
   | .error _, some (_, f) => .ok (.iterableValue f)
-  | .ok (some _), some _ => .panic "scalar_variables.rs:get_value:unreachable(this is checked on the parsing stage)"
+  | .ok (some _), some _ => uncatchable (.iterableShadowing name)
 
 def setScalarValue (s : Scalars) (name : String) (v : ValueAggregate) : ER Scalars := do
   let (_, m) ← s.nonIterable.setValue name v
